@@ -83,6 +83,38 @@ func VerifC14Roster() {
 	vAssert(len(nodesOf(0)) == 0 && len(rr.([]int)) == 0, "C14/empty-commit-clears-the-roster")
 }
 
+// C14 interleaved batches: the params give the vector of each consecutive batch of ONE epoch (9 ends the
+// list; a vector may be revisited after a higher one was started), every batch has two symbolic keys. After
+// the commit each vector holds exactly its own batches in submission order, whatever was added to the others
+// in between.
+func VerifC14Interleaved() {
+	deployContainerOnly()
+	tags := []string{"p", "q", "r", "s", "t", "u"}
+	var want [3][]any
+	started := 0
+	for i := 0; i < 6; i++ {
+		v := vParam(i)
+		if v == 9 {
+			break
+		}
+		ks := batch(tags[i], 2)
+		vAssume(alphaC("addNextEpochNodes", cid14, v, ks))
+		want[v] = append(want[v], ks...)
+		if v+1 > started {
+			started = v + 1
+		}
+	}
+	reps := []any{}
+	for v := 0; v < started; v++ {
+		reps = append(reps, 1)
+	}
+	vAssume(alphaC("commitContainerListUpdate", cid14, reps))
+	vCover("interleaved-roster-committed")
+	for v := 0; v < started; v++ {
+		vAssert(sameKeys(nodesOf(v), want[v]), "C14/nodes-are-what-was-added-in-submission-order")
+	}
+}
+
 // C14 counter encoding: 2 bytes, round trip, order preserving, for every counter 1..32767.
 func VerifC14Counter() {
 	c1, c2 := vInt("c1"), vInt("c2")
